@@ -117,7 +117,8 @@ def check(recipe) -> list[Fail]:
         if how == "recipe":
             ens = chem.build_ensemble(base)
         elif how == "from_ensemble":
-            ens = ml.ConformerEnsemble(chem.build_ensemble(base))
+            src_ens = chem.build_ensemble(base)
+            ens = ml.ConformerEnsemble(src_ens)
         elif how == "from_molecule":
             ens = ml.ConformerEnsemble(chem.build_molecule(base, ml.Molecule))
         elif how == "from_molecule_list":
@@ -148,6 +149,12 @@ def check(recipe) -> list[Fail]:
         return fails
     extra = itertools.count()
     sources = []
+    if how == "from_ensemble":
+        # the ensemble that was copy-constructed from must stay untouched by everything done to the copy
+        sources.append((src_ens, np.array(src_ens.coords, dtype=float), -1))
+        src_qw = (src_ens, np.array(src_ens.atomic_charges, dtype=float), np.array(src_ens.weights, dtype=float))
+    else:
+        src_qw = None
     for step, op in enumerate(recipe["ops"]):
         name = op[0]
         nc = model.nc
@@ -215,6 +222,15 @@ def check(recipe) -> list[Fail]:
                 R = _proper_R(op[1])
                 ens.rotate(R)
                 model.coords = model.coords @ R
+            elif name == "rotate_stack":
+                # one matrix per conformer (what the alignment code hands to rotate): row c becomes coords[c] @ R[c]
+                if nc == 0:
+                    continue
+                from vf.props.c11 import _proper_R
+
+                Rs = np.array([_proper_R(op[1] + 7 * c) for c in range(nc)])
+                ens.rotate(Rs)
+                model.coords = np.array([model.coords[c] @ Rs[c] for c in range(nc)]).reshape((nc, na, 3))
             elif name in ("write_coord", "write_coords_setter", "write_charge", "write_atom_field"):
                 if nc == 0 or na == 0:
                     continue
@@ -340,6 +356,8 @@ def check(recipe) -> list[Fail]:
         for (g, c0, when) in sources:
             if not np.array_equal(np.asarray(g.coords, dtype=float), c0, equal_nan=True):
                 return [Fail(f"source-geometry-changed-by-later-operation:{name.split('[')[0]}", f"step {step} ({name}): the geometry handed to the ensemble at step {when} changed (max {np.nanmax(np.abs(np.asarray(g.coords, dtype=float) - c0)):.3g})")]
+        if src_qw is not None and not (np.array_equal(src_qw[0].atomic_charges, src_qw[1], equal_nan=True) and np.array_equal(src_qw[0].weights, src_qw[2], equal_nan=True)):
+            return [Fail(f"source-ensemble-charges-or-weights-changed-by-later-operation:{name.split('[')[0]}", f"step {step} ({name})")]
     return []
 
 
@@ -376,7 +394,7 @@ def strat(tier):
         st.tuples(st.just("scale"), st.sampled_from([0.5, 2.0, 1.25])).map(list),
         st.sampled_from([["append_wrong_size"], ["extend_wrong_size"]]),
         st.tuples(st.sampled_from(["translate1", "translate2"]), st.lists(f, min_size=3, max_size=3)).map(list),
-        st.tuples(st.just("rotate"), i).map(list),
+        st.tuples(st.sampled_from(["rotate", "rotate_stack"]), i).map(list),
         st.tuples(st.sampled_from(["write_coord", "write_coords_setter", "write_charge", "write_atom_field"]), i, i, f).map(list),
         st.tuples(st.just("iterate"), st.sampled_from(["plain", "nested", "interleaved", "zip", "break_then_full"])).map(list),
         st.tuples(st.just("slice"), i, i).map(list),
